@@ -21,6 +21,39 @@ class Undecided(Exception):
     pass
 
 
+def int_eval(expr, env):
+    """Evaluate a small integer / boolean expression (constants, names in env by text, + -, comparisons, and/or/not) exactly.
+    env maps normalised texts to ints.  Raises Undecided on anything else."""
+    t = norm(expr)
+    if t in env:
+        return env[t]
+    if isinstance(expr, ast.Constant) and isinstance(expr.value, (int, bool)):
+        return expr.value
+    if isinstance(expr, ast.UnaryOp) and isinstance(expr.op, ast.USub):
+        return -int_eval(expr.operand, env)
+    if isinstance(expr, ast.UnaryOp) and isinstance(expr.op, ast.Not):
+        return not int_eval(expr.operand, env)
+    if isinstance(expr, ast.BinOp) and isinstance(expr.op, (ast.Add, ast.Sub)):
+        a, b = int_eval(expr.left, env), int_eval(expr.right, env)
+        return a + b if isinstance(expr.op, ast.Add) else a - b
+    if isinstance(expr, ast.BoolOp):
+        vals = [int_eval(v, env) for v in expr.values]
+        return all(vals) if isinstance(expr.op, ast.And) else any(vals)
+    if isinstance(expr, ast.Compare):
+        left = int_eval(expr.left, env)
+        for op, c in zip(expr.ops, expr.comparators):
+            right = int_eval(c, env)
+            ok = {ast.Lt: left < right, ast.LtE: left <= right, ast.Gt: left > right, ast.GtE: left >= right,
+                  ast.Eq: left == right, ast.NotEq: left != right}.get(type(op))
+            if ok is None:
+                raise Undecided('operator in %s' % t)
+            if not ok:
+                return False
+            left = right
+        return True
+    raise Undecided('expression %s' % t)
+
+
 def eval_guard(test, valuation):
     """Evaluate a boolean expression under `valuation`: a callable (ast node) -> True/False/None for atoms.
     Three-valued; BoolOp / Not handled here.  Returns True / False / None."""
